@@ -1792,6 +1792,10 @@ class TemplateParam(Node):
         self.typemap = typemap.Typemap(
             name, base="template", cxx_type="-TemplateParam-")
 
+    def qualified_lookup(self, name):
+        """A template parameter has no known members."""
+        return None
+
 
 def check_decl(decl, namespace=None, template_types=None, trace=False):
     """ parse expr as a declaration, return list/dict result.
